@@ -106,7 +106,7 @@ func workerRun(p *Program, job *Job) {
 		fmt.Fprintln(os.Stderr, "verif worker: unknown property", job.Prop)
 		os.Exit(2)
 	}
-	env := &Env{Prog: p, Stats: NewStats(), Tier: job.Tier}
+	env := &Env{Prog: p, Stats: NewStats(), Tier: job.Tier, Deadline: job.Deadline}
 	known := map[string]bool{}
 	for _, k := range job.Known {
 		known[k] = true
@@ -127,7 +127,7 @@ func workerRun(p *Program, job *Job) {
 		} else if i%job.Workers != job.Worker {
 			continue
 		}
-		if job.Deadline > 0 && i%16 == 0 && time.Now().Unix() > job.Deadline {
+		if job.Deadline > 0 && time.Now().Unix() > job.Deadline {
 			timedOut = true
 			break
 		}
